@@ -16,6 +16,8 @@ POOLS = {
         "gprA": ["rax", "eax", "rbx"],
         "gprBP": ["rbp", "ebp", "rbx"],
         "gprR8": ["r8", "r8d", "r9"],
+        "gprAH": ["ecx", "ch", "rdx"],
+        "gprSI": ["rsi", "sil", "di"],
         "vec": ["xmm1", "ymm1", "xmm2"],
     },
     "aarch64": {
